@@ -322,6 +322,14 @@ class MailboxData(MailboxDataInterface[Message]):
             new_rec = Record(uidl.next_uid, rec.fields, new_filename)
             uidl.next_uid += 1
             uidl.set(new_rec)
+        if destination is not self:
+            # The key moves with the file, the old record would become valid
+            # again if the message is ever moved back.
+            async with UidList.with_write(self._path) as uidl:
+                try:
+                    uidl.remove(uid)
+                except KeyError:
+                    pass
         return new_rec.uid
 
     async def get(self, uid: int, cached_msg: CachedMessage) -> Message:
